@@ -1,5 +1,6 @@
 import SelenModel.Lemmas.Safety
 import SelenModel.Props.C11
+import SelenModel.Lemmas.Validate
 /-
 C17 — Invalid or extreme inputs produce errors, not panics.
 
@@ -52,6 +53,51 @@ theorem C17_ss_queries_safe (s : SS) (h : s.WF) (hs : Small s) (v : Int) (hv : S
    (safe_of_allOk (SSS.iter_ok true s h (fun _ => hs))).1,
    fun hne => ⟨(safe_of_allOk (SSS.min_ok true s h hne (fun _ => hs))).1,
                (safe_of_allOk (SSS.max_ok true s h hne (fun _ => hs))).1⟩⟩
+
+/-- **C17 (sparse set, the other entry points: indices).**  `is_subset_of`, `equals`, `iter`,
+`complement_iter`, `first`, `last`, `restore_size(k ≤ n)` in a well-formed state and
+`new_from_values` for any value list: every index, slice end, emptiness assertion and unsigned
+subtraction is fine — for all sizes, offsets and operands. -/
+theorem C17_ss_observers_indices_in_bounds (s o : SS) (h : s.WF) (vs : List Int) (k : Nat) (hk : k ≤ s.n) :
+    ∀ x ∈ SSS.isSubsetOf s o ++ SSS.equals s o ++ SSS.iter s ++ SSS.complementIter s ++ SSS.first s ++
+        SSS.last s ++ SSS.restoreSize s k ++ SSS.newFromValues vs,
+      x.structural = true → x.ok = true := by
+  have e : false = true → Small s := fun hh => by cases hh
+  have e' : false = true → Small o := fun hh => by cases hh
+  exact structural_of_allOk
+    (allOk_append (allOk_append (allOk_append (allOk_append (allOk_append (allOk_append (allOk_append
+      (SSS.isSubsetOf_ok false s o h e e') (SSS.equals_ok false s o h e e')) (SSS.iter_ok false s h e))
+      (SSS.complementIter_ok false s h e)) (SSS.first_ok false s h e)) (SSS.last_ok false s h e))
+      (SSS.restoreSize_ok false s k hk)) (SSS.newFromValues_ok false vs (fun hh => by cases hh)))
+
+/-- **C17 (sparse set, the other entry points: arithmetic).**  With both universes inside
+`[-2^30, 2^30)` these calls — and `max_universe_value` — neither panic nor lose a value in a cast;
+`new_from_values` is safe for values inside `[-2^30, 2^30 - 1)`, and so is `new`. -/
+theorem C17_ss_observers_arith_safe (s o : SS) (h : s.WF) (hs : Small s) (ho : Small o) (k : Nat) (hk : k ≤ s.n) :
+    safe (SSS.isSubsetOf s o) = true ∧ safe (SSS.equals s o) = true ∧ safe (SSS.iter s) = true ∧
+    safe (SSS.complementIter s) = true ∧ safe (SSS.first s) = true ∧ safe (SSS.last s) = true ∧
+    safe (SSS.maxUniverse s) = true ∧ safe (SSS.restoreSize s k) = true :=
+  ⟨(safe_of_allOk (SSS.isSubsetOf_ok true s o h (fun _ => hs) (fun _ => ho))).1,
+   (safe_of_allOk (SSS.equals_ok true s o h (fun _ => hs) (fun _ => ho))).1,
+   (safe_of_allOk (SSS.iter_ok true s h (fun _ => hs))).1,
+   (safe_of_allOk (SSS.complementIter_ok true s h (fun _ => hs))).1,
+   (safe_of_allOk (SSS.first_ok true s h (fun _ => hs))).1,
+   (safe_of_allOk (SSS.last_ok true s h (fun _ => hs))).1,
+   (safe_of_allOk (SSS.maxUniverse_ok true s (fun _ => hs))).1,
+   (safe_of_allOk (SSS.restoreSize_ok true s k hk)).1⟩
+
+theorem C17_ss_new_from_values_safe (vs : List Int) (hv : ∀ w ∈ vs, SmallB w) :
+    safe (SSS.newFromValues vs) = true ∧ faithful (SSS.newFromValues vs) = true :=
+  safe_of_allOk (SSS.newFromValues_ok true vs (fun _ => hv))
+
+/-- `SparseSet::new_from_values(vec![i32::MAX]).max_universe_value()`: `off + n` overflows (reached
+from `validate_variable_domains` for `intset([i32::MAX])`) -/
+theorem C17_ss_max_universe_counterexample :
+    safe (SSS.maxUniverse (SS.newFromValues [2147483647])) = false := by decide
+
+/-- `new_from_values(vec![i32::MIN, i32::MAX])`: `max - min` overflows in `new` -/
+theorem C17_ss_new_from_values_counterexample :
+    safe (SSS.newFromValues [-2147483648, 2147483647]) = false := by decide
 
 /-- a step of a history never changes the universe -/
 theorem step_universe (y : Sys) (op : SSOp) (hi : C11.Inv y) :
@@ -198,6 +244,34 @@ theorem C17_lin_safe (cs : List Int) (xs : List Nat) (c : Int) (B : Nat) (hr : L
    safe_of_allOk (LS.pruneLe_ok cs xs c B hr _ ctx (fun _ hi => List.mem_range.1 hi) hst),
    safe_of_allOk (LS.pruneNe_ok cs xs c B hr ctx hst)⟩
 
+/-- **C17 (linear rows are the contract's propagators).**  Under the same hypotheses the clamped
+re-statement used for the panic sites computes exactly what `PK.prune` of the integer core computes
+for `linEq` / `linLe` / `linNe` — the functions the C05 contract theorems are about — for all
+rows: `C17_lin_safe` is a statement about those same propagators. -/
+theorem C17_lin_same_functions (cs : List Int) (xs : List Nat) (c : Int) (B : Nat) (hr : LS.RowOK cs xs c B)
+    (ctx : Ctx) (hst : VS.StoreOK ctx.st B) :
+    (LS.pruneEq cs xs c (List.range xs.length) ctx).2 = PK.prune (.linEq cs xs c) ctx ∧
+    (LS.pruneLe cs xs c (List.range xs.length) ctx).2 = PK.prune (.linLe cs xs c) ctx ∧
+    (LS.pruneNe cs xs c ctx).2 = PK.prune (.linNe cs xs c) ctx :=
+  ⟨LS.pruneEq_eq_PK cs xs c B hr ctx hst, LS.pruneLe_eq_PK cs xs c B hr ctx hst,
+   LS.pruneNe_eq_PK cs xs c B hr ctx hst⟩
+
+/-- the rounding helpers of linear.rs (`div_floor`, `div_ceil`, written with truncating `/` and
+`%`) are the mathematical floor and ceiling for every non-zero divisor -/
+theorem C17_lin_rounding (a b : Int) (hb : b ≠ 0) :
+    (LS.divRound a b false).2 = floorDiv a b ∧ (LS.divRound a b true).2 = ceilDiv a b :=
+  ⟨LS.divRound_floor a b hb, LS.divRound_ceil a b hb⟩
+
+/-- outside the hypothesis the two differ: in `x0 + x1 + x2 - x3 ≤ i32::MAX` with
+`x1 = x2 = x3 = i32::MAX` the running sum `MAX + MAX` saturates, the code keeps `x0 = 1`, exact
+arithmetic removes it — and the `fid` sites report it (`faithful = false`) -/
+theorem C17_lin_saturation_counterexample :
+    let st : Store := fun i => if i = 0 then [-1, 0, 1] else [2147483647]
+    (LS.pruneLe [1, 1, 1, -1] [0, 1, 2, 3] 2147483647 (List.range 4) { st := st }).2.map (fun c => c.st 0) = some [-1, 0, 1] ∧
+    (PK.prune (.linLe [1, 1, 1, -1] [0, 1, 2, 3] 2147483647) { st := st }).map (fun c => c.st 0) = some [-1, 0] ∧
+    faithful (LS.pruneLe [1, 1, 1, -1] [0, 1, 2, 3] 2147483647 (List.range 4) { st := st }).1 = false := by
+  decide
+
 /-- `x + 65536·y = 0` with `y ∈ [0, 65536]`: `other_coeff * u` overflows (products of in-range
 factors) -/
 theorem C17_lin_product_counterexample :
@@ -291,6 +365,7 @@ theorem C17_validation_table_partial (sc : Scenario) (hinv : documentedInvalid s
     simp [outcome, Outcome.surfaced, hinv, hnp]
   | tableArity nv rl => simp [documentedInvalid] at hinv
   | allDiffDup d => simp [documentedInvalid] at hinv
+  | allDiff ds => simp [documentedInvalid] at hinv
 
 /-- which error each documented invalid input becomes (the decision table itself) -/
 theorem C17_validation_table :
@@ -313,6 +388,42 @@ theorem C17_validation_table :
       split <;> split <;> omega
     simp [outcome, this]
   · intro limit lo hi post h; simp [outcome, h]
+
+/-! ### the all-different validation rows of the table -/
+
+/-- the rows: two variables fixed to the same value and fewer values than variables are reported as
+`ConflictingConstraints` by every entry point (the scan is `Determ.adScan`); constraints over at
+most one variable are skipped -/
+theorem C17_validation_alldiff_rows :
+    outcome (.allDiff [some [2], some [1, 2, 3], some [2]]) = ⟨none, .err .conflictingConstraints⟩ ∧
+    outcome (.allDiff [some [1, 2], some [1, 2], some [2, 1]]) = ⟨none, .err .conflictingConstraints⟩ ∧
+    outcome (.allDiff [some [1, 2], some [1, 2], some [1, 2], some [3, 4]]) = ⟨none, .noSolution⟩ ∧
+    outcome (.allDiff [some [1, 2], some [2, 3], some [1, 3]]) = ⟨none, .sol⟩ ∧
+    outcome (.allDiff [none]) = ⟨none, .sol⟩ := by decide
+
+/-- **C17 (all-different validation, integer variables).**  When every variable of the constraint
+is an integer variable, the `ConflictingConstraints` verdict of the table is given only if no
+assignment of pairwise different values exists (`Validate.adScan_reject_sound`): the invalid model
+surfaces as an `Err`, and no satisfiable one does. -/
+theorem C17_validation_alldiff_sound (ds : List (List Int))
+    (h : (outcome (.allDiff (ds.map some))).verdict = .err .conflictingConstraints) :
+    ¬ ∃ vs, Validate.ADSol ds vs := by
+  apply Validate.adScan_reject_sound
+  intro hok
+  simp only [outcome, List.length_map] at h
+  split at h
+  · cases h
+  · rw [hok] at h
+    simp only [] at h
+    split at h <;> cases h
+
+/-- the full-strength version (for any mix of integer and float variables) is false: the float
+variables are counted in the number of required distinct values although their domains are
+skipped — `alldiff(x = float(0,10), y = intset([1]))` is rejected although satisfiable (finding
+`alldiff-float-counted`) -/
+theorem C17_validation_alldiff_float_counterexample :
+    (outcome (.allDiff [none, some [1]])).verdict = .err .conflictingConstraints ∧
+    adSat (adInts [none, some [1]]) [] = true := by decide
 
 /-! ### the hypotheses are satisfiable -/
 
